@@ -119,7 +119,33 @@ def call_value(I, e, s, fv, args, kwargs):
 def call_package(I, e, s, g, args, kwargs):
     # context managers / generators: effects are attributed at the call
     # translate key-of facts through parameter names
-    ret = I.call_func(g, args, kwargs, node=e)
+    # "key K is present in <argument>" facts established by the caller hold for the corresponding parameter of the callee
+    facts = set()
+    gp = g.params
+    for i, a in enumerate(e.args):
+        if i < len(gp) and isinstance(a, (ast.Name, ast.Attribute)):
+            cname = norm(a)
+            for (d, k) in s.present:
+                if d == cname and k[0] == "c":
+                    facts.add((gp[i], k))
+    for kw in e.keywords:
+        if kw.arg and isinstance(kw.value, (ast.Name, ast.Attribute)):
+            cname = norm(kw.value)
+            for (d, k) in s.present:
+                if d == cname and k[0] == "c":
+                    facts.add((kw.arg, k))
+    sib = {}
+    for i, a in enumerate(e.args):
+        if i < len(gp) and isinstance(a, ast.Name):
+            for (var, key), v in s.sib.items():
+                if var == a.id:
+                    sib[(gp[i], key)] = v
+    for kw in e.keywords:
+        if kw.arg and isinstance(kw.value, ast.Name):
+            for (var, key), v in s.sib.items():
+                if var == kw.value.id:
+                    sib[(kw.arg, key)] = v
+    ret = I.call_func(g, args, kwargs, node=e, present=frozenset(facts), sib=sib)
     # rename keys_of facts from callee parameter names to caller argument names
     def rename(av, depth=0):
         if av is None or depth > 2:
